@@ -40,6 +40,7 @@ import (
 	"sort"
 	"strconv"
 	"strings"
+	"time"
 
 	descriptorv1 "buf.build/gen/go/bufbuild/bufplugin/protocolbuffers/go/buf/plugin/descriptor/v1"
 	"buf.build/go/bufplugin/check"
@@ -1263,7 +1264,7 @@ func main() {
 	defer run.Finish()
 	setup()
 	r := hx.NewRand(run.Seed)
-	// C06_SECTIONS (development aid): comma-separated subset of keys,sel,imports,lint,breaking,place,yaml
+	// C06_SECTIONS (development aid): comma-separated subset of keys,multi,directives,sel,imports,lint,breaking,place,yaml
 	on := func(name string) bool {
 		s := os.Getenv("C06_SECTIONS")
 		return s == "" || slices.Contains(strings.Split(s, ","), name)
@@ -1273,6 +1274,15 @@ func main() {
 	// the recorded comment-ignore findings of section E fire on every run
 	if on("keys") && run.Only < 0 {
 		defer sectionKeys()()
+	}
+	// multi-module v2 workspaces (multi.go): reader + Client first, the commands in the background
+	if on("multi") {
+		t0 := time.Now()
+		finishMulti := sectionMulti(r.Fork(7))
+		if os.Getenv("C06_TIMING") != "" {
+			fmt.Fprintf(os.Stderr, "multi M1: %.1fs\n", time.Since(t0).Seconds())
+		}
+		defer finishMulti()
 	}
 	if on("sel") {
 		sectionSelection(r.Fork(1))
@@ -1285,6 +1295,9 @@ func main() {
 	}
 	if on("breaking") {
 		sectionCheck(r.Fork(3), false)
+	}
+	if on("directives") {
+		sectionDirectives(r.Fork(8))
 	}
 	if on("place") {
 		sectionPlacement(r.Fork(4))
